@@ -36,6 +36,7 @@ structure A where
   buf : List Nat := []
   fail : List (Nat × FailMode) := []
   w : List Nat := []                     -- the manager's current writable set (stale across idle rounds)
+  wAny : List Nat := []                  -- besides `w`: connections that ANY poll of the stretch being judged reported writable (set only inside `checkDeparturesAny`, for the stretch of a round that reads nothing, which spans two polls)
   pubT : List (Int × Nat) := []          -- client-type frames handled since the last TIMING tick
   pubR : List (Int × Nat) := []          -- … since the last TRAFFIC tick
   recvT : List ((Nat × Int) × Nat) := []  -- manager-originated frames of type t seen by observer o since the last TIMING tick
@@ -120,7 +121,7 @@ def checkDepartures (cfg : Cfg) (a : A) (mustDepart : Option Nat) (evs : List Ev
   -- logger, which is waited for) is owed a FAILED_MESSAGE naming it, once per departure, at every FAILED_MESSAGE
   -- subscriber that can take it.  Modules that themselves leave in this segment are owed / owe nothing.
   let owed := a.mods.filter (fun m => m.alive && subscribed m cfg.mtClosed && !m.isLogger && !a.w.contains m.uid &&
-      !xs.contains m.uid)
+      !a.wAny.contains m.uid && !xs.contains m.uid)
   let fobs := a.mods.filter (fun m => m.alive && subscribed m cfg.mtFailed && ready a m && !a.failing m.uid &&
       !xs.contains m.uid)
   fobs.foldl (fun a o =>
@@ -129,6 +130,13 @@ def checkDepartures (cfg : Cfg) (a : A) (mustDepart : Option Nat) (evs : List Ev
       let got := ((sends evs).filter (fun p => p.1 == o.uid && p.2.2.body == .failed m.modId cfg.mtClosed 0 0)).length
       a.chk (got ≥ want) "C14"
         s!"observer {o.uid} got {got} FAILED_MESSAGE notices about the CLIENT_CLOSED that subscriber id {m.modId} could not be handed, expected at least {want}") a) a
+
+/-- `checkDepartures` for a stretch that spans two polls (`some v`: `v` is what either poll reported writable; the C14
+    clause counts as surely not ready only a subscriber in neither `a.w` — the intersection — nor `v`) -/
+def checkDeparturesAny (cfg : Cfg) (a : A) (wAny : Option (List Nat)) (mustDepart : Option Nat) (evs : List Ev) : A :=
+  match wAny with
+  | none => checkDepartures cfg a mustDepart evs
+  | some v => { checkDepartures cfg { a with wAny := v } mustDepart evs with wAny := a.wAny }
 
 def applyDepartures (a : A) (evs : List Ev) : A :=
   (closes evs).foldl (fun a v => a.upd v (fun m => { m with alive := false, connected := false })) a
@@ -510,9 +518,12 @@ def roundBody (cfg : Cfg) (a : A) (r : Round) (evs : List Ev) : A × List Ev :=
   -- there is what the PREVIOUS poll left (`a.w`).  When no frame is read in the round `pre` is the whole round — the
   -- accept branch, then (after the poll) the periodic section — and only a connection that is ready by both polls is
   -- counted as ready.  Nothing may be closed there without a failed write.
+  -- … as far as LOWER bounds for observers go.  Who is surely NOT ready (owed a FAILED_MESSAGE about an undeliverable
+  -- CLIENT_CLOSED) is the other way round: only a connection that NEITHER poll reported writable (`wAny`: the union).
   let aP : A := if segs.isEmpty then { a with w := a.w.filter (wNew.contains ·) } else a
+  let wU : Option (List Nat) := if segs.isEmpty then some (a.w ++ wNew) else none
   let aP := aP.chk ((closes pre).isEmpty || !(wfails pre).isEmpty) "C07" "a connection was closed before any frame was read in this round"
-  let aP := applyDepartures (checkDepartures cfg (checkNoticeOrigin cfg aP none pre) none pre) pre
+  let aP := applyDepartures (checkDeparturesAny cfg (checkNoticeOrigin cfg aP none pre) wU none pre) pre
   let a : A := { aP with w := wNew }
   -- every frame the script delivers to a live connection is read, in order, unless its connection died earlier in the round
   let rec go (a : A) (reads : List Read) (segs : List (Nat × List Ev)) (fuel : Nat) : A :=
